@@ -86,7 +86,8 @@ Record cnt := mkCnt {
   n_stop : nat;             (* stop() calls *)
   n_out : nat; n_err : nat; (* reads captured *)
   n_expired : nat;          (* joins that ran into their 1 s timeout *)
-  n_steps : nat             (* main-thread transitions + events processed *)
+  n_steps : nat;            (* main-thread transitions + events processed *)
+  n_joins : list (who * bool)   (* every thread.join call, in order: worker, "with the 1 s timeout" *)
 }.
 
 Definition st := (ctl * cnt)%type.
@@ -112,23 +113,27 @@ Definition set_timer (k : ctl) (t : tstate) : ctl :=
 
 Definition add_steps (n : nat) (c : cnt) : cnt :=
   mkCnt (n_kills c) (n_kills_after_exit c) (n_intr c) (n_stop c) (n_out c) (n_err c) (n_expired c)
-        (n + n_steps c).
+        (n + n_steps c) (n_joins c).
 Definition add_intr (c : cnt) : cnt :=
   mkCnt (n_kills c) (n_kills_after_exit c) (S (n_intr c)) (n_stop c) (n_out c) (n_err c) (n_expired c)
-        (n_steps c).
+        (n_steps c) (n_joins c).
 Definition add_stop (c : cnt) : cnt :=
   mkCnt (n_kills c) (n_kills_after_exit c) (n_intr c) (S (n_stop c)) (n_out c) (n_err c) (n_expired c)
-        (n_steps c).
+        (n_steps c) (n_joins c).
 Definition add_kill (after_exit : bool) (c : cnt) : cnt :=
   mkCnt (S (n_kills c)) (if after_exit then S (n_kills_after_exit c) else n_kills_after_exit c)
-        (n_intr c) (n_stop c) (n_out c) (n_err c) (n_expired c) (n_steps c).
+        (n_intr c) (n_stop c) (n_out c) (n_err c) (n_expired c) (n_steps c) (n_joins c).
 Definition add_read (w : who) (c : cnt) : cnt :=
   mkCnt (n_kills c) (n_kills_after_exit c) (n_intr c) (n_stop c)
         (match w with WOut => S (n_out c) | _ => n_out c end)
-        (match w with WErr => S (n_err c) | _ => n_err c end) (n_expired c) (n_steps c).
+        (match w with WErr => S (n_err c) | _ => n_err c end) (n_expired c) (n_steps c) (n_joins c).
 Definition add_expired (c : cnt) : cnt :=
   mkCnt (n_kills c) (n_kills_after_exit c) (n_intr c) (n_stop c) (n_out c) (n_err c) (S (n_expired c))
-        (n_steps c).
+        (n_steps c) (n_joins c).
+
+Definition add_join (w : who) (bounded : bool) (c : cnt) : cnt :=
+  mkCnt (n_kills c) (n_kills_after_exit c) (n_intr c) (n_stop c) (n_out c) (n_err c) (n_expired c)
+        (n_steps c) (n_joins c ++ [(w, bounded)]).
 
 Definition is_run (x : wstate) : bool := match x with WRun => true | _ => false end.
 Definition is_dead (x : wstate) : bool := match x with WDead _ => true | _ => false end.
@@ -140,7 +145,7 @@ Definition any_dead (k : ctl) : bool := is_dead (s_out k) || is_dead (s_in k) ||
 Definition any_dead_k (x : exk) (k : ctl) : bool :=
   is_dead_k x (s_out k) || is_dead_k x (s_in k) || is_dead_k x (s_err k).
 
-Definition zero_cnt : cnt := mkCnt 0 0 0 0 0 0 0 0.
+Definition zero_cnt : cnt := mkCnt 0 0 0 0 0 0 0 0 [].
 
 (** does [start] raise in the calling process?  (Popen does; under a pty
     os.execve raises in the forked CHILD and the parent just sees a pid) *)
@@ -187,6 +192,11 @@ Definition do_stop (c : cfg) (s : st) (echild : bool) : st :=
 
 (** the finally block of [_finish]: join the workers in creation order until one
     of them is still running (then the main thread is blocked in that join) *)
+(** [thread.join(self._thread_join_timeout(target))]: noted once per join call
+    ([cur = None]: the call is being made now; [Some _]: still inside it) *)
+Definition join_note (cur : option bool) (k : ctl) (w : who) (n : cnt) : cnt :=
+  match cur with None => add_join w (join_bounded k w) n | Some _ => n end.
+
 Fixpoint run_joins (c : cfg) (s : st) (todo : list who) (cur : option bool) (echild : bool) : st :=
   match todo with
   | [] => do_stop c s echild
@@ -195,8 +205,8 @@ Fixpoint run_joins (c : cfg) (s : st) (todo : list who) (cur : option bool) (ech
         (set_pc (fst s) (PJoin (w :: rest)
                                (Some (match cur with Some b => b | None => join_bounded (fst s) w end))
                                echild),
-         add_steps 1 (snd s))
-      else run_joins c (fst s, add_steps 1 (snd s)) rest None echild
+         add_steps 1 (join_note cur (fst s) w (snd s)))
+      else run_joins c (fst s, add_steps 1 (join_note cur (fst s) w (snd s))) rest None echild
   end.
 
 (** leaving the wait loop: [program_finished.set()]; the stdin worker then leaves
@@ -307,7 +317,8 @@ Record sm_obs := mkSmObs {
   o_timer_armed : bool;           (* timer still armed afterwards *)
   o_timer_fired : bool;
   o_reaped : bool;
-  o_nout : nat; o_nerr : nat      (* reads captured in the result (0 when there is none) *)
+  o_nout : nat; o_nerr : nat;     (* reads captured in the result (0 when there is none) *)
+  o_joins : list (who * bool)     (* the join calls made: worker, with the 1 s timeout or without *)
 }.
 
 Definition has_result (o : outcome) : bool :=
@@ -322,7 +333,7 @@ Definition observe (s : st) : sm_obs :=
           (match s_timer k with TArmed => true | _ => false end)
           (match s_timer k with TFired => true | _ => false end)
           (s_reaped k)
-          (if res then n_out n else 0) (if res then n_err n else 0).
+          (if res then n_out n else 0) (if res then n_err n else 0) (n_joins n).
 
 (** [timeout] resolution in [_unify_kwargs_with_config]: the run() keyword if
     given, else config.timeouts.command (which -T sets). *)
